@@ -295,7 +295,6 @@ structure RawRows where
   globalSpec : Bool
   presence : MetaPresence
   paging : Option Bytes
-  raw : Bytes
   deriving Repr
 
 /-- `RawMetadataAndRawRows::deserialize`. -/
@@ -310,8 +309,8 @@ def deserRawRows (f : Features) : M RawRows := do
     let presence : MetaPresence := if noMeta then .noMetadata else if changed then .withNewId else .justMetadata
     let colCount ← tag "rows.colcount" readIntLength
     let paging ← optRead (hasMore) (tag "rows.paging" readBytes)
-    let raw ← takeRest
-    pure ⟨colCount, globalSpec, presence, paging, raw⟩
+    -- `raw_metadata_and_rows: frame.to_bytes()` is the rest of the buffer: it stays in the reader state
+    pure ⟨colCount, globalSpec, presence, paging⟩
 
 /-- Which metadata a Rows result ends up with. -/
 inductive MetaSource where
